@@ -142,19 +142,19 @@ def readVarint : List Nat → Option (Nat × List Nat)
       | _ => none
 
 def parseFuel : Nat → List Nat → Option (List (Nat × List Nat))
-  | _, [] => some []
-  | 0, _ :: _ => none
+  | 0, bs => if bs.isEmpty then some [] else none
   | f+1, bs =>
-    match readVarint bs with
-    | none => none
-    | some (id, r1) =>
-      match readVarint r1 with
+    if bs.isEmpty then some []
+    else match readVarint bs with
       | none => none
-      | some (n, r2) =>
-        if r2.length < n then none
-        else match parseFuel f (r2.drop n) with
-          | none => none
-          | some rest => some ((id, r2.take n) :: rest)
+      | some (id, r1) =>
+        match readVarint r1 with
+        | none => none
+        | some (n, r2) =>
+          if r2.length < n then none
+          else match parseFuel f (r2.drop n) with
+            | none => none
+            | some rest => some ((id, r2.take n) :: rest)
 
 /-- parse the body of a quic_transport_parameters extension into `(id, value)` pairs -/
 def parseQTP (bs : List Nat) : Option (List (Nat × List Nat)) := parseFuel bs.length bs
